@@ -336,4 +336,23 @@ PROPS = {
                              "class:edge-of-a-destroyed-forest:operand", "class:iterator:dereference-after-the-end", "class:binary:operands-from-different-domains"],
         "assumptions": ASSUME_COMMON + ["reference counts are not asserted after a provoked error (the property does not promise leak-freedom on error paths)"],
     },
+    "C17": {
+        "rule": ("each case: 2-4 initialize/cleanup cycles; per cycle 15-45 (thorough: up to 90) random actions: create domain (up to 4), "
+                 "create forest of any set kind and policy, build / copy / destroy edges (heap-allocated, so they can outlive anything), "
+                 "create / advance / destroy iterators, operations and COPYs that span two forests of one domain (populating compute "
+                 "tables with entries that mention both), operations across domains (must be rejected), destroy a forest, destroy a "
+                 "domain with all its forests; then cleanup() with edges still alive, which are destroyed before or after cleanup at "
+                 "random.  After every destruction: edges of the destroyed forest report getForest()==nullptr and using one in "
+                 "COPY raises an error; getForestWithID forgets the forest; all surviving edges re-evaluated everywhere; surviving "
+                 "forests pass M1-M3; later operations still equal the model; forest identifiers within one initialisation are "
+                 "pairwise distinct; ASan watches every teardown order.  Iterators are destroyed before their forest.  "
+                 "non-trivial = every case; distinct = hash of the action trace"),
+        "passes": {
+            "quick": [P("main", "asan", 800)],
+            "thorough": [P("main", "asan", 15000)],
+        },
+        "require_counters": ["initializations", "cleanups", "forests_destroyed", "domains_destroyed", "orphan_edges_checked", "orphan_edge_uses_rejected",
+                             "operations_spanning_two_forests", "edges_destroyed_after_cleanup", "iterators_created", "cross_domain_rejections"],
+        "assumptions": ASSUME_COMMON + ["an iterator is destroyed before the forest it iterates over"],
+    },
 }
